@@ -22,6 +22,7 @@ func init() {
 			"(registration) every composite type's RegisterTo registers each of its component types (a struct reachable only through one component would otherwise be printed by name but never declared); " +
 			"(total) node builders assert unchecked only to scanner terminals. " +
 			"Known finding: void prints as 'nothing', which the IDL grammar does not know. " +
+			"Declared names (struct, field, action) are printed as stored, not through a function. " +
 			"Not decided: identity on all meta-objects; totality of the parser on arbitrary text (its callbacks depend on goparsec's runtime node shapes).",
 		Assumptions: []string{"goparsec combinators behave as documented"},
 		Run:         runC18,
